@@ -74,8 +74,29 @@ def run_doc(case, res):
                            [1, {"str": "q", "data_id": "ID1", **({"kind": "k"} if typed else {})}]]
             doc = {"meta": {"$generator": "nutree/0.9", "$format_version": "1.0"}, "nodes": entries}
             fp = io.StringIO(json.dumps(doc))
+            container = (len(labs) + len(form) + (1 if typed else 0)) % 3  # 0: open stream, 1: path, 2: zipped file
+            tmpd = None
+            if container:
+                import os
+                import shutil
+                import tempfile
+                import zipfile
+
+                tmpd = tempfile.mkdtemp(prefix="vmon-c03-")
+                fp = os.path.join(tmpd, "dup.nutree")
+                if container == 2:
+                    with zipfile.ZipFile(fp, "w", compression=zipfile.ZIP_DEFLATED) as zf:
+                        zf.writestr("dup.nutree.json", json.dumps(doc))
+                else:
+                    with open(fp, "w", encoding="utf8") as f2:
+                        f2.write(json.dumps(doc))
+                res.count(f"doc_container:{container}")
             try:
-                (TypedTree if typed else Tree).load(fp, mapper=lambda n, d: d["str"])
+                try:
+                    (TypedTree if typed else Tree).load(fp, mapper=lambda n, d: d["str"])
+                finally:
+                    if tmpd:
+                        shutil.rmtree(tmpd, ignore_errors=True)
             except UniqueConstraintError:
                 res.count("doc_refusals")
                 return
